@@ -100,19 +100,33 @@ def build(spec):
     dat = t2data()
     dat.title = spec['title']
     dat.simulator = spec['simulator']
-    for r in spec['rocks']:
-        rt = rocktype(r['name'], r['nad'], r['density'], r['porosity'], list(r['permeability']), r['conductivity'], r['specific_heat'])
+    # grid_edits: the object reaches the state the spec describes through public edits of the grid (see c01_gen.add_grid_edits)
+    ed = spec.get('grid_edits') or {}
+    ren = ed.get('rename_rock')
+    built_as = {}
+    for i in ed.get('rock_build_order') or range(len(spec['rocks'])):
+        r = spec['rocks'][i]
+        name = ren[1] if ren and ren[0] == i else r['name']
+        built_as[r['name']] = name
+        rt = rocktype(name, r['nad'], r['density'], r['porosity'], list(r['permeability']), r['conductivity'], r['specific_heat'])
         for k, v in r.get('extra', {}).items(): setattr(rt, k, v)
         if r.get('relperm') is not None: rt.relative_permeability = deepcopy(r['relperm'])
         if r.get('cap') is not None: rt.capillarity = deepcopy(r['cap'])
         dat.grid.add_rocktype(rt)
-    for b in spec['blocks']:
-        dat.grid.add_block(t2block(b['name'], b['volume'], dat.grid.rocktype[b['rock']],
+    for i in ed.get('block_build_order') or range(len(spec['blocks'])):
+        b = spec['blocks'][i]
+        dat.grid.add_block(t2block(b['name'], b['volume'], dat.grid.rocktype[built_as[b['rock']]],
                                    centre=None if b['centre'] is None else np.array(b['centre'], dtype=float),
                                    ahtx=b['ahtx'], pmx=b['pmx'], nseq=b['nseq'], nadd=b['nadd']))
-    for c in spec['conns']:
+    for i in ed.get('conn_build_order') or range(len(spec['conns'])):
+        c = spec['conns'][i]
         dat.grid.add_connection(t2connection([dat.grid.block[c['b1']], dat.grid.block[c['b2']]], c['direction'], list(c['distance']),
                                              c['area'], c['dircos'], c['sigma'], c['nseq'], c['nad1'], c['nad2']))
+    if ren: dat.grid.rename_rocktype(ren[1], spec['rocks'][ren[0]]['name'])
+    if ed.get('rock_build_order'): dat.grid.sort_rocktypes()
+    if ed.get('block_build_order'):
+        dat.grid.reorder(block_names=[b['name'] for b in spec['blocks']],
+                         connection_names=[(c['b1'], c['b2']) for c in spec['conns']] if ed.get('conn_build_order') else None)
     p = spec.get('parameter')
     if p is not None:
         for k, v in p.items():
@@ -502,21 +516,58 @@ def quiet():
     return contextlib.redirect_stdout(io.StringIO())
 
 
+_PRISTINE = None
+def module_state():
+    """the module-level tables every t2data object shares: they must be the same before and after any read / write"""
+    import t2data as m
+    from copy import deepcopy
+    return deepcopy({'t2data_sections': m.t2data_sections, 't2_extra_precision_sections': m.t2_extra_precision_sections,
+                     't2data_format_specification': m.t2data_format_specification,
+                     't2data_extra_precision_format_specification': m.t2data_extra_precision_format_specification})
+
+
+def check_module_state(fails):
+    global _PRISTINE
+    if _PRISTINE is None: return
+    now = module_state()
+    for k in _PRISTINE:
+        if now[k] != _PRISTINE[k]:
+            fails.append(('state', 'MODULE', 'module-level %s was changed by a read / write of some object in this process' % k))
+            return
+
+
 def round_trip(dat, cfg, tmp, name='model.dat', first_write_kwargs=None, cycles=3):
     """The statement on one object `dat` (already built or read).  Returns a list of
     (stage, section, detail); empty = the property holds on this input."""
     from t2data import t2data, t2data_format_specification as MAIN, t2data_extra_precision_format_specification as EXTRA
+    global _PRISTINE
+    if _PRISTINE is None: _PRISTINE = module_state()
     fails = []
     mesh = cfg.get('mesh', 'infile')
     dirs = [os.path.join(tmp, 'w%d' % i) for i in range(cycles + 1)]
     for d in dirs: os.makedirs(d)
     auto = bool(dat.simulator)
     before = snapshot(dat)
+    from copy import deepcopy
+    kwargs = deepcopy(first_write_kwargs or {})          # caller-owned arguments: compared afterwards
     try:
-        with quiet(): dat.write(os.path.join(dirs[0], name), mesh_arg(mesh, dirs[0]), **(first_write_kwargs or {}))
+        with quiet(): dat.write(os.path.join(dirs[0], name), mesh_arg(mesh, dirs[0]), **kwargs)
     except OutOfDomain: raise
     except Exception as e:
         return [('write-raises', type(e).__name__, repr(e)[:300])]
+    if kwargs != (first_write_kwargs or {}):
+        fails.append(('state', 'ARGS', 'write() changed its arguments: %r became %r' % (first_write_kwargs, kwargs)))
+    # the same object written once more (no arguments: the settings are part of the object now) gives the same files
+    again = os.path.join(tmp, 'again'); os.makedirs(again)
+    try:
+        with quiet(): dat.write(os.path.join(again, name), mesh_arg(mesh, again))
+        fa, fb = files_of(dirs[0]), files_of(again)
+        if sorted(fa) != sorted(fb): fails.append(('state', 'SAME-OBJECT', 'second write of the same object wrote %s, the first %s' % (sorted(fb), sorted(fa))))
+        else:
+            for f in fa:
+                if fa[f] != fb[f]: fails.append(('state', 'SAME-OBJECT', 'second write of the same object: ' + diff_bytes(fa[f], fb[f], 0))); break
+    except Exception as e:
+        fails.append(('state', 'SAME-OBJECT', 'second write of the same object raises %r' % (e,)))
     written_sections = list(dat._sections)
     xp_eff = list(dat.extra_precision) if auto else []
     mesh_sections = ['ELEME', 'CONNE'] if mesh != 'infile' else []
@@ -565,6 +616,7 @@ def round_trip(dat, cfg, tmp, name='model.dat', first_write_kwargs=None, cycles=
                 with quiet(): cur = t2data(os.path.join(dirs[i], name), mesh_arg(mesh, dirs[i]))
             except Exception as e:
                 fails.append(('reread-raises', type(e).__name__, 'cycle %d: %r' % (i, e))); break
+    check_module_state(fails)
     return fails
 
 
